@@ -319,7 +319,8 @@ class Tr:
         else:
             fa, fb = self.toF(a, ta, n), self.toF(b, tb, n)
             table = dict(Lt=f'(nltb O {fa} {fb})', LtE=f'(nleb O {fa} {fb})',
-                         Gt=f'(nltb O {fb} {fa})', GtE=f'(nleb O {fb} {fa})')
+                         Gt=f'(nltb O {fb} {fa})', GtE=f'(nleb O {fb} {fa})',
+                         Eq=f'(neqb O {fa} {fb})', NotEq=f'(negb (neqb O {fa} {fb}))')
         if op not in table:
             fail(n, 'unsupported comparison')
         return table[op]
@@ -511,6 +512,15 @@ def translate_slice(spec, tree):
     table = {src: name for src, (name, _) in spec['inputs'].items()}
     fn = Replace(table).visit(ast.parse(ast.unparse(fn)).body[0])
     ast.fix_missing_locations(fn)
+
+    def norm(text):      # statements named in the registry are written as in the source
+        return ast.unparse(ast.fix_missing_locations(Replace(table).visit(ast.parse(text)))).strip()
+    spec = dict(spec)
+    for key in ('expected_stmts', 'expected_uses'):
+        if key in spec:
+            spec[key] = [norm(t) for t in spec[key]]
+    if 'input_after' in spec:
+        spec['input_after'] = norm(spec['input_after'])
     seq = []
     loops = [s for s in fn.body if isinstance(s, ast.For)]
     loop = None
